@@ -1,18 +1,22 @@
 #!/bin/bash
 # Re-runs the whole sensitivity suite against the current machinery and /repo HEAD:
-# every kept seeded change (target check only) and every mutant. Results: seeded/*/meta.json,
-# tools/mutants_results.jsonl; then tools/report.py refreshes DESIGN.md §10.
-# The agents' original output directories (patch.diff, demo/, meta.json) are taken from seeded/.
+# every kept seeded change (its target check plus the neighbouring checks recorded in its
+# meta.json) and every mutant. Results: seeded/*/meta.json, tools/mutants_results.jsonl; then
+# tools/report.py refreshes DESIGN.md §10. Three seeded changes are checked at a time.
 cd /verif
-for d in seeded/*/; do
+one() {
+  d=$1
   name=$(basename $d)
-  prop=$(python3 -c "import json;print(json.load(open('$d/meta.json'))['property'])")
-  extra=""
-  case $name in C16b-*) extra="C08";; C07-map-tmp*) extra="";; esac
-  # seedcheck reads <outdir>/meta.json (needs property, summary, needs_to_manifest...) and <outdir>/{patch.diff,demo}
-  python3 tools/seedcheck.py $d $name $prop $extra > /tmp/sens-$name.json 2>&1
+  checks=$(python3 -c "
+import json
+m=json.load(open('$d/meta.json'))
+ks=[m['property']]+[k for k in (m.get('checks') or {}) if k!=m['property']]
+print(' '.join(ks))")
+  python3 tools/seedcheck.py $d $name $checks > /tmp/sens-$name.json 2>&1
   echo "$name $(python3 -c "import json;d=json.load(open('/tmp/sens-$name.json'));print(d.get('status'),{k:v['caught'] for k,v in d.get('checks',{}).items()})" 2>/dev/null)"
-done
+}
+export -f one
+ls -d seeded/*/ | xargs -P 3 -I{} bash -c 'one {}'
 MUTANTS_FORCE=1 python3 tools/mutants.py run | python3 -c "
 import sys,json
 for l in sys.stdin:
